@@ -357,6 +357,12 @@ def dispatch(E, c, args):
         if tc[2] == "abs":
             return VBig(z3.If(x >= 0, x, -x))
         return VBool(x < 0 if tc[2] == "is_negative" else x > 0)
+    # ToPrimitive on big integers
+    if tc and tc[1] in ("ToPrimitive", "num_traits::ToPrimitive") and tc[2] in ("to_u64", "to_i64", "to_u128", "to_i128", "to_u32", "to_i32", "to_usize"):
+        a = deref(E, args[0])
+        if isinstance(a, (VBig, VInt)):
+            ty = tc[2][3:]
+            return fork_opt(E, in_range(a.t, ty), VInt(a.t, ty), tc[2])
     # digits vector
     if re.match(r"^std::vec::Vec::<u64>::len$", c) or c.endswith("<impl [u64]>::len"):
         v = deref(E, args[0])
